@@ -382,6 +382,11 @@ def gen_C16(rng, tier):
             if rng.random() < 0.4 and c[side + "size"] - delta >= c[side + "end"]:
                 delta = -delta
             c[side + "size"] += delta
+            if rng.random() < 0.25:
+                # the odd one out is a contig of size 0 (only an empty chain at position 0 can declare it): 0 is a size like any
+                # other, not "not seen yet"
+                c.update(blocks=[(0,)], tstart=0, tend=0, qstart=0, qend=0)
+                c[side + "size"] = 0
             if rng.random() < 0.5:
                 c[("q" if side == "t" else "t") + "name"] += "_o"
             g = list(f)
